@@ -353,7 +353,7 @@ theorem spec_maildirMove_sp (S : Spool) (T : Prop) (cs : List Bytes) (env : PEnv
   split
   · exact early w1 (Inv.ofSameFs hsf hroot) (hns.congr (hsf.dir _))
   rename_i fl _
-  refine wp_bind_mono (spec_genname_plain env dst (some fl) 4096 _) ?_
+  refine wp_bind_mono (spec_genname_plain env dst (some fl) gennameAttempts _) ?_
   rintro g w2 (⟨rfl, hsf2⟩ | ⟨fd, dstname, d', p', w3, rfl, hd', hsf3, hdp', hl', hfd', rfl, hname, -⟩)
   · exact early w2 (Inv.ofSameFs (hsf.trans hsf2) hroot) (hns.congr ((hsf.trans hsf2).dir _))
   · dsimp only
